@@ -151,17 +151,22 @@ def canon(m):
 
 def untruncate(m):
     """replace every truncated reconstruction by the matrix that was decomposed (what the product would be without the cut)"""
-    out = []
-    for f in canon(m):
-        if f[0] == 'trunc':
-            x = reg().get(f[1][0])
-            if x is None:
-                return None
-            x = {'': x, 'H': H(x), 'T': T(x), 'C': C(x)}[f[2]]
-            out.extend(x)
-        else:
-            out.append(f)
-    return canon(tuple(out))
+    m = canon(m)
+    for _ in range(20):
+        if not any(f[0] == 'trunc' for f in m):
+            return m
+        out = []
+        for f in m:
+            if f[0] == 'trunc':
+                x = reg().get(f[1][0])
+                if x is None:
+                    return None
+                x = {'': x, 'H': H(x), 'T': T(x), 'C': C(x)}[f[2]]
+                out.extend(x)
+            else:
+                out.append(f)
+        m = canon(tuple(out))            # (the decomposed matrix may itself contain the truncated result of an earlier step)
+    return None
 
 
 def origin_array(uid, depth=0):
